@@ -388,6 +388,12 @@ func checkC15(c *Ctx) {
 	}
 
 	c15Conversions(c, sugarK)
+	c.Rule("R15.6", "handlers derived through WithAttrs/WithGroup keep the caller skip and the caller/stack options", 2)
+	for _, m := range []string{"WithAttrs", "WithGroup"} {
+		if fn := c.Method(SlogPath, "Handler", m); fn != nil {
+			c18Carries(c, "R15.6", fn)
+		}
+	}
 	c15CheckCallers(c)
 	c15Attach(c)
 	c15Whole(c)
